@@ -92,6 +92,8 @@ Choices ==
          \cup {[Node(0, "loop") EXCEPT !.form = "count", !.cnt = c, !.lv = "a", !.start = 1, !.step = 2] : c \in 1..3}
          \* negative start and step (the harness additionally scales the loop variable by a dyadic factor)
          \cup {[Node(0, "loop") EXCEPT !.form = "count", !.cnt = c, !.lv = "a", !.start = -2, !.step = -2] : c \in 2..3}
+         \* a step of zero: the loop variable stands still, the passes are still counted
+         \cup {[Node(0, "loop") EXCEPT !.form = "count", !.cnt = c, !.lv = "a", !.start = 3, !.step = 0] : c \in 2..3}
          \* <for var="a" data="1, 2, .., c">: the items are 1..c
          \* (c = 0: the empty list, which only a variable can hold - zero passes)
          \cup {[Node(0, "loop") EXCEPT !.form = "for", !.cnt = c, !.lv = "a", !.start = 1, !.step = 1] : c \in 0..3}
